@@ -889,6 +889,63 @@ impl<const V: usize> Exec<V> {
                 let r = Self::root_idx(*root);
                 self.pop_finalized(m, r, (*n as usize % 8) + 1);
             }
+            Op::GetFinalizersFor { m, root } => {
+                let mi = self.pick_m(*m);
+                let mut r = Self::root_idx(*root);
+                // prefer a rooted object that has an outstanding registration
+                for k in 0..ROOTS_PER_MUTATOR {
+                    let c = (r + k) % ROOTS_PER_MUTATOR;
+                    if self.roots[mi][c] != 0 && self.fin_registered.contains(&self.roots[mi][c]) {
+                        r = c;
+                        break;
+                    }
+                }
+                let id = self.roots[mi][r];
+                if id == 0 {
+                    return;
+                }
+                let a = self.root_addr(mi, r);
+                let got = mm::get_finalizers_for(self.mmtk, oref(a));
+                let expect = self.fin_registered.iter().filter(|x| **x == id).count();
+                if got.len() != expect || got.iter().any(|o| o.to_raw_address().as_usize() != a) {
+                    self.violate("C06", "get-finalizers-for-mismatch", format!("get_finalizers_for(object id {} at {:#x}) returned {:?}; {} registration(s) of that object are outstanding", id, a, got, expect));
+                    return;
+                }
+                self.fin_registered.retain(|x| *x != id);
+                self.fin_maybe_ready.retain(|x| *x != id);
+                self.fin_must_ready.retain(|x| *x != id);
+                cnt!(self, "get_finalizers_for");
+                if expect > 0 {
+                    cnt!(self, "get_finalizers_for_nonempty");
+                }
+            }
+            Op::GetAllFinalizers => {
+                let got = mm::get_all_finalizers(self.mmtk);
+                let mut got_ids: Vec<u64> = got.iter().map(|o| self.raw(o.to_raw_address().as_usize()).id()).collect();
+                let mut want = self.fin_registered.clone();
+                got_ids.sort();
+                want.sort();
+                if got_ids != want {
+                    self.violate("C06", "get-all-finalizers-mismatch", format!("get_all_finalizers returned objects with ids {:?}; outstanding registrations: {:?}", got_ids, want));
+                    return;
+                }
+                // each returned object must be intact (it was kept alive by MMTk or is reachable)
+                for o in &got {
+                    let a = o.to_raw_address().as_usize();
+                    let id = self.raw(a).id();
+                    let mut w = Walk::default();
+                    self.walk_from(&mut w, id, a, "object returned by get_all_finalizers");
+                    self.walk_drain(&mut w);
+                    if let Some(e) = w.error.take() {
+                        self.violate("C06", "finalized-closure-damaged", e);
+                        return;
+                    }
+                }
+                self.fin_registered.clear();
+                self.fin_maybe_ready.clear();
+                self.fin_must_ready.clear();
+                cnt!(self, "get_all_finalizers");
+            }
             Op::AddEphemeron { m, key, val } => {
                 let m = self.pick_m(*m);
                 let k = Self::root_idx(*key);
@@ -1837,7 +1894,21 @@ impl<const V: usize> Exec<V> {
                     }
                 }
             }
-            (self.strong_closure(&starts, false), self.strong_closure(&roots, true))
+            // a registered soft reference object that lives in the immortal space is "live" for the
+            // reference processor whether or not it is reachable (ImmortalSpace::is_live is always true), so
+            // its referent is retained, too (the reference object itself is not traced)
+            let mut max_starts = roots.clone();
+            for (id, kind) in self.ref_registered.iter() {
+                if *kind == KIND_SOFT && self.immortal_ids.contains(id) {
+                    if let Some(o) = self.objs.get(id) {
+                        if o.fields[0] != 0 {
+                            starts.push(o.fields[0]);
+                            max_starts.push(o.fields[0]);
+                        }
+                    }
+                }
+            }
+            (self.strong_closure(&starts, false), self.strong_closure(&max_starts, true))
         };
         // finalizable objects are kept with their strong closure whether they are still candidates or ready
         let fin_closure = self.strong_closure(&self.fin_registered.clone(), false);
@@ -1942,6 +2013,7 @@ impl<const V: usize> Exec<V> {
             let dropped: Vec<u64> = self
                 .ref_registered
                 .iter()
+                .filter(|(rid, _)| !self.immortal_ids.contains(rid))
                 .filter(|(rid, kind)| if **kind == KIND_PHANTOM { !r2_min.contains(rid) } else { !r1_min.contains(rid) })
                 .map(|(rid, _)| *rid)
                 .collect();
